@@ -2331,7 +2331,14 @@ def check_markers(timeout):
     return c10_markerframe.check(None, timeout)
 
 
-TASKS = ["init", "getattr", "setattr", "mutation", "callsites", "raw", "from_fields", "copy", "to_bytes", "from_buffer", "pickle", "dict_eq", "eq", "asdict", "markers"]
+def check_fieldwidth(timeout):
+    """every thrift field the library's own Python code sets has a width the serialiser can emit: contracts/c10_fieldwidth.py"""
+    from . import c10_fieldwidth
+    return c10_fieldwidth.check(None, timeout)
+
+
+TASKS = ["init", "getattr", "setattr", "mutation", "callsites", "raw", "from_fields", "copy", "to_bytes", "from_buffer", "pickle", "dict_eq", "eq", "asdict", "markers",
+         "fieldwidth"]
 FUNCTIONS = ["ThriftObject.__init__", "ThriftObject.__getattr__", "ThriftObject.__setattr__", "ThriftObject.__delattr__", "ThriftObject.__setitem__",
              "ThriftObject.__getitem__", "ThriftObject.__delitem__", "ThriftObject.get", "ThriftObject.to_bytes", "ThriftObject.__reduce_ex__",
              "ThriftObject.thrift_name", "ThriftObject.contents", "ThriftObject.copy", "ThriftObject.__copy__", "ThriftObject.__deepcopy__",
